@@ -31,6 +31,7 @@ type shareInfo struct {
 	Search     bool   `json:"search,omitempty"`
 	Transitive bool   `json:"transitive"`
 	Expiry     string `json:"expiry"` // none | past | future
+	PastAt     string `json:"expired_at,omitempty"` // Expiry == "past": the instant (RFC 3339), drawn from pastInstants
 }
 
 type node struct {
@@ -161,6 +162,9 @@ func (w *world) validate(chain []*node) verdict {
 var (
 	claimBase = time.Date(2020, 1, 2, 3, 4, 5, 0, time.UTC)
 	farPast   = time.Date(1995, 6, 1, 0, 0, 0, 0, time.UTC)
+	// instants that are all long past; some of them look "unset" to a careless test (the Unix epoch,
+	// the second after it, the day after Go's zero time)
+	pastInstants = []string{"1995-06-01T00:00:00Z", "1995-06-01T00:00:00Z", "1970-01-01T00:00:00Z", "1970-01-01T00:00:01Z", "1969-12-31T23:59:59Z", "0001-01-02T00:00:00Z", "2001-09-09T01:46:40Z"}
 	farFuture = time.Date(2190, 6, 1, 0, 0, 0, 0, time.UTC)
 )
 
@@ -358,7 +362,14 @@ func (g *gen) share(name string, si shareInfo, second bool) *node {
 	}
 	switch si.Expiry {
 	case "past":
-		b.SetShareExpiration(farPast)
+		at := farPast
+		if si.PastAt != "" {
+			var err error
+			if at, err = time.Parse(time.RFC3339, si.PastAt); err != nil {
+				panic("harness: " + err.Error())
+			}
+		}
+		b.SetShareExpiration(at)
 	case "future":
 		b.SetShareExpiration(farFuture)
 	}
@@ -513,6 +524,9 @@ func genWorld(t *rapid.T) *world {
 		si := shareInfo{
 			Transitive: rapid.Bool().Draw(t, "transitive"),
 			Expiry:     rapid.SampledFrom([]string{"none", "none", "future", "past"}).Draw(t, "expiry"),
+		}
+		if si.Expiry == "past" {
+			si.PastAt = rapid.SampledFrom(pastInstants).Draw(t, "expiredAt")
 		}
 		if rapid.IntRange(0, 9).Draw(t, "searchShare") == 0 {
 			si.Search = true
